@@ -429,6 +429,13 @@ func checksumArithmetic(c *Ctx, mt types.Type, cks *ssa.Function) {
 			set("Address", &ArrayV{Elem: types.Typ[types.Uint8], Segs: []Seg{{Elems: addr}}})
 			set("NumReqBytes", &ArrayV{Elem: types.Typ[types.Uint8], Segs: []Seg{{Elems: size}}})
 			set("InfoRequest", &BoolV{Known: true, Val: w.req})
+			// the field the other kind of message uses holds whatever an earlier use of the value left there (a request value
+			// re-used as a data set, a parsed data set turned into a request): it is not part of the message and not summed
+			if w.req {
+				set("SendingData", ex.unknownSlice(st, types.Typ[types.Uint8], "stalePayload", 0))
+			} else {
+				set("NumReqBytes", &ArrayV{Elem: types.Typ[types.Uint8], Segs: []Seg{{Elems: []Val{ex.byteSym("stale0"), ex.byteSym("stale1"), ex.byteSym("stale2")}}}})
+			}
 			if !w.req {
 				data := ex.unknownSlice(st, types.Typ[types.Uint8], "payload", 1)
 				st.refineSym(data.Len.T.Syms[0], 1, 512)
